@@ -56,6 +56,15 @@ def run(ck, rng, tier):
             widths = [widths[0], widths[0]]
             tot = 2 * widths[0]
             Xc = np.hstack([Xc[:, :widths[0]], Xc[:, :widths[0]]])
+        if c in (2, 3):
+            nb, n, widths, tot = 2, max(n, 8), [3, 2], 5
+            Xc, s = c02.gen_separated(rng, n, tot, 1.0)
+            if c == 2:      # the first variable of the first block is constant, two components
+                Xc[:, 0] = 4.0
+                scaling = rng.choice((0, 1))
+            else:           # a variable far from the origin compared with its spread (4e7 + [0, 30)), autoscaling
+                Xc[:, 1] = 4.0e7 + 30.0 * (Xc[:, 1] - Xc[:, 1].min()) / (Xc[:, 1].max() - Xc[:, 1].min() + 1e-300)
+                scaling = 1
         blocks, c0 = [], 0
         for w in widths:
             blocks.append(Xc[:, c0:c0 + w].copy())
@@ -64,6 +73,8 @@ def run(ck, rng, tier):
         nproc = rng.choice((1, 1, 2, 4, 8))
         if c == 0:
             npc, nproc = 4, 1
+        if c in (2, 3):
+            npc = 2
         # the property presumes regular data: every preprocessed block non-constant, enough rank
         Ebs = [c02.preprocess(b, scaling) for b in blocks]
         if any(np.abs(E).max() < 1e-9 for E in Ebs):
